@@ -185,8 +185,9 @@ where
 {
     let mut rng = Rng::derive(seed, &[3, vmon::hash_str(S::NAME)]);
     let vals: Vec<S> = sample_values::<S>(&mut rng, n_random);
-    let offs: Vec<S::Signed> = offsets::<S::Signed>(&mut rng, 24);
-    let gns: Vec<S::Float> = gains::<S::Float>(&mut rng, 24);
+    let n_og = if LEAN.with(|l| l.get()) { 3 } else { 24 };
+    let offs: Vec<S::Signed> = offsets::<S::Signed>(&mut rng, n_og);
+    let gns: Vec<S::Float> = gains::<S::Float>(&mut rng, n_og);
     let zero_off: S::Signed = <S::Signed as AnyS>::from_val(if S::INT.is_some() { Val::I(0) } else { Val::F(0.0) });
     let g0: S::Float = <S::Float as AnyS>::from_val(Val::F(0.0));
     let g1: S::Float = <S::Float as AnyS>::from_val(Val::F(1.0));
@@ -879,6 +880,23 @@ fn main() {
             if cli.thorough() {
                 frames_for!(I24, &mut rep, cli.seed, sel);
                 frames_for!(u8, &mut rep, cli.seed, sel);
+            }
+            if usize::BITS < 64 {
+                // a 32-BIT build (stage miri32): the sample-level sweep for every format wider
+                // than 16 bits - the 8-byte formats are wider than the machine word there, and
+                // the structured values sit on both sides of 2^31 and 2^32 - dealt to the shards
+                rep.oblige("sample_formats_checked_in_a_32_bit_build", 1);
+                let mut k = 0usize;
+                macro_rules! deal {
+                    ($($S:ty),*) => {$(
+                        k += 1;
+                        if k % ns == sh % ns {
+                            check_sample_format::<$S>(&mut rep, cli.seed, 8);
+                            rep.hit("sample_formats_checked_in_a_32_bit_build");
+                        }
+                    )*};
+                }
+                deal!(I48, i64, U48, u64, I24, i32, U24, u32, f32, f64);
             }
             if sh == 0 {
                 all_mono(&mut rep, cli.seed);
